@@ -216,6 +216,23 @@ theorem collect_vs_push_can_deadlock_fails :
   refine ⟨by decide, by decide, ?_⟩
   exact .cons (waitsFor_of_b _ 0 1 (by decide)) (.single (waitsFor_of_b _ 1 0 (by decide)))
 
+/-- the state after an OS thread re-rooting into child 1 took ctx 1 and the collecting root took
+    its own context and child 2's (it pops the LAST child first) -/
+def collectRerootDead : Sys :=
+  (runSched (mkSys [collectProg (flatKids 3) 4 0, rerootProg 1 2]) [1, 0, 0, 0, 0, 0, 0, 0, 0]).getD []
+
+/-- `collect` keeps every child's context, taking them in `Vec::pop` order (last child first,
+    thread.rs:409-419); a transfer from the later child into the earlier one takes the same two
+    contexts in the opposite order: reachable deadlock.  Predicted by the model before it was
+    observed; reproduced on the real VM (10/10 runs hang, the opposite direction 0/10; known
+    finding `deadlock:collect-vs-re_root`). -/
+theorem collect_vs_reroot_can_deadlock_fails :
+    runSched (mkSys [collectProg (flatKids 3) 4 0, rerootProg 1 2]) [1, 0, 0, 0, 0, 0, 0, 0, 0] = some collectRerootDead ∧
+    deadlocked collectRerootDead = true ∧
+    ParLocks.Proofs.WaitPath collectRerootDead 0 0 := by
+  refine ⟨by decide, by decide, ?_⟩
+  exact .cons (waitsFor_of_b _ 0 1 (by decide)) (.single (waitsFor_of_b _ 1 0 (by decide)))
+
 def fixedRank : Lock → Nat
   | .ctx _ => 0
   | .rooted _ => 1
